@@ -13,25 +13,25 @@ Proof.
   rewrite (H _ _ E). apply IH, Hm.
 Qed.
 
-Lemma decl_node_mono1 : forall f S nd m, decl_node f S nd = Some m -> decl_node (Datatypes.S f) S nd = Some m.
+Lemma decl_node_mono1 : forall f S pn nd m, decl_node f S pn nd = Some m -> decl_node (Datatypes.S f) S pn nd = Some m.
 Proof.
-  induction f as [|f IH]; intros S nd m H; [discriminate|].
+  induction f as [|f IH]; intros S pn nd m H; [discriminate|].
   destruct nd; try exact H.
   - (* Ref *) simpl in H |- *. destruct (alookup n S) as [nd'|]; [apply IH, H | exact H].
-  - (* AllOf *) change (decl_members (decl_node (Datatypes.S f) S) l [] = Some m).
-    change (decl_members (decl_node f S) l [] = Some m) in H.
+  - (* AllOf *) change (decl_members (decl_node (Datatypes.S f) S None) l [] = Some m).
+    change (decl_members (decl_node f S None) l [] = Some m) in H.
     eapply decl_members_mono; [|exact H]. intros x mx Hx. apply IH, Hx.
 Qed.
 
-Lemma decl_node_mono : forall f g S nd m, (f <= g)%nat -> decl_node f S nd = Some m -> decl_node g S nd = Some m.
+Lemma decl_node_mono : forall f g S pn nd m, (f <= g)%nat -> decl_node f S pn nd = Some m -> decl_node g S pn nd = Some m.
 Proof.
-  intros f g S nd m Hle H. induction Hle; [exact H|]. apply decl_node_mono1, IHHle.
+  intros f g S pn nd m Hle H. induction Hle; [exact H|]. apply decl_node_mono1, IHHle.
 Qed.
 
-Lemma decl_node_functional : forall f g S nd m1 m2,
-  decl_node f S nd = Some m1 -> decl_node g S nd = Some m2 -> m1 = m2.
+Lemma decl_node_functional : forall f g S pn nd m1 m2,
+  decl_node f S pn nd = Some m1 -> decl_node g S pn nd = Some m2 -> m1 = m2.
 Proof.
-  intros f g S nd m1 m2 H1 H2.
+  intros f g S pn nd m1 m2 H1 H2.
   apply (decl_node_mono f (Nat.max f g)) in H1; [|lia].
   apply (decl_node_mono g (Nat.max f g)) in H2; [|lia].
   congruence.
@@ -41,9 +41,9 @@ Lemma declared_f_functional : forall f g S n d1 d2,
   declared_f f S n = Some d1 -> declared_f g S n = Some d2 -> d1 = d2.
 Proof.
   unfold declared_f. intros f g S n d1 d2 H1 H2. destruct (alookup n S) as [nd|]; [|discriminate].
-  destruct (decl_node f S nd) as [m1|] eqn:E1; [|discriminate].
-  destruct (decl_node g S nd) as [m2|] eqn:E2; [|discriminate].
-  simpl in *. rewrite (decl_node_functional _ _ _ _ _ _ E1 E2) in H1. congruence.
+  destruct (decl_node f S (Some n) nd) as [m1|] eqn:E1; [|discriminate].
+  destruct (decl_node g S (Some n) nd) as [m2|] eqn:E2; [|discriminate].
+  simpl in *. rewrite (decl_node_functional _ _ _ _ _ _ _ E1 E2) in H1. congruence.
 Qed.
 
 (* ------------------------------------------------------------------ equality deciders are sound *)
@@ -476,11 +476,20 @@ Section InvProofs.
     i_circ e = false /\ i_unres e = false /\ i_depthm e = false /\ i_stub e = false
     /\ (forall n, i_ty e <> Some (TyNamed n)).
 
-  Definition member_ok (nd : node) (r : ir) : Prop :=
-    exists f m, decl_node f S nd = Some m /\ fvals (i_props r) = fst m /\ i_req r = snd m.
+  Definition member_ok (pn : option str) (nd : node) (r : ir) : Prop :=
+    exists f m, decl_node f S pn nd = Some m /\ fvals (i_props r) = fst m /\ i_req r = snd m.
+
+  Lemma core_props_ty : forall pn ps, forallb (fun kv => core_prop (snd kv)) ps = true ->
+    map (fun kv : str * node => (fst kv, ty_of_prop pn (fst kv) (snd kv))) ps
+    = map (fun kv => (fst kv, ty_of (snd kv))) ps.
+  Proof.
+    induction ps as [|[k x] ps IH]; intros H; simpl in *; [reflexivity|].
+    apply andb_true_iff in H. destruct H as [H1 H2]. rewrite (IH H2). f_equal.
+    destruct x; try discriminate; reflexivity.
+  Qed.
 
   Definition good (k : str) (e : ir) : Prop :=
-    exists nd, alookup k S = Some nd /\ i_name e = Some k /\ clean_ir e /\ member_ok nd e /\ kind_ok nd e.
+    exists nd, alookup k S = Some nd /\ i_name e = Some k /\ clean_ir e /\ member_ok (Some k) nd e /\ kind_ok nd e.
 
   Definition Inv (s : st) : Prop :=
     (forall k e, In (k, e) (parsed s) -> good k e /\ (i_id e < nid s)%N) /\ cycles s = [].
@@ -495,7 +504,7 @@ Section InvProofs.
                           /\ older s' id /\ parsed s' = parsed s
     | Arr y => exists id it, r = IR id None (Some TyArray) [] [] (Some it) None None None false false false false false false
                              /\ tyref_of None it = ty_of y /\ older s' id
-    | Obj ps rq => i_name r = None /\ member_ok nd r
+    | Obj ps rq => i_name r = None /\ member_ok None nd r
     | _ => True
     end.
 
@@ -518,9 +527,9 @@ Section InvProofs.
        [destruct (str_eqb m kk) eqn:E; [apply str_eqb_eq in E; subst; congruence | reflexivity] | reflexivity]).
   Qed.
 
-  Lemma good_member_ref : forall m e, good m e -> member_ok (Ref m) e.
+  Lemma good_member_ref : forall pn m e, good m e -> member_ok pn (Ref m) e.
   Proof.
-    intros m e (nd & Hl & _ & _ & (f & mm & Hd & H1 & H2) & _).
+    intros pn m e (nd & Hl & _ & _ & (f & mm & Hd & H1 & H2) & _).
     exists (Datatypes.S f), mm. simpl. rewrite Hl. auto.
   Qed.
 
@@ -669,7 +678,7 @@ Section InvProofs.
       forallb core_member l = true ->
       (forall x k, In x l -> In k (prop_keys x) -> ~ In k (map fst S)) ->
       parse_list rec l s = (ms, s') -> events s' = [] -> oof s' = false -> Inv s ->
-      Inv s' /\ Forall2 member_ok l ms.
+      Inv s' /\ Forall2 (member_ok None) l ms.
     Proof.
       induction l as [|x l IH]; intros s ms s' Hc Hkeys H He Ho HI; simpl in H.
       - inversion H; subst. split; [exact HI | constructor].
@@ -723,8 +732,8 @@ Section InvProofs.
   Lemma req_merge : forall ms, merge_req [] (map as_member ms) = merge_req [] (map tmember ms).
   Proof. intros. unfold merge_req. simpl. f_equal. rewrite !map_map. reflexivity. Qed.
 
-  Lemma members_common_fuel : forall l ms, Forall2 member_ok l ms ->
-    exists F, Forall2 (fun x r => decl_node F S x = Some (tmember r)) l ms.
+  Lemma members_common_fuel : forall l ms, Forall2 (member_ok None) l ms ->
+    exists F, Forall2 (fun x r => decl_node F S None x = Some (tmember r)) l ms.
   Proof.
     induction 1 as [|x r l ms (f & m & Hd & H1 & H2) _ (F & IH)].
     - exists O. constructor.
@@ -735,8 +744,8 @@ Section InvProofs.
   Qed.
 
   Lemma decl_members_run : forall F l ms acc,
-    Forall2 (fun x r => decl_node F S x = Some (tmember r)) l ms ->
-    decl_members (decl_node F S) l acc
+    Forall2 (fun x r => decl_node F S None x = Some (tmember r)) l ms ->
+    decl_members (decl_node F S None) l acc
     = Some (merge_props (rev acc ++ map tmember ms), merge_req [] (rev acc ++ map tmember ms)).
   Proof.
     induction l as [|x l IH]; intros ms acc H; inversion H; subst; simpl.
@@ -744,11 +753,11 @@ Section InvProofs.
     - rewrite H2. rewrite (IH _ _ H4). simpl. rewrite <- !app_assoc. reflexivity.
   Qed.
 
-  Lemma allof_member_ok : forall l ms x, Forall2 member_ok l ms ->
+  Lemma allof_member_ok : forall pn l ms x, Forall2 (member_ok None) l ms ->
     i_props x = merge_props (map as_member ms) -> i_req x = merge_req [] (map as_member ms) ->
-    member_ok (AllOf l) x.
+    member_ok pn (AllOf l) x.
   Proof.
-    intros l ms x H Hp Hr. destruct (members_common_fuel _ _ H) as [F HF].
+    intros pn l ms x H Hp Hr. destruct (members_common_fuel _ _ H) as [F HF].
     exists (Datatypes.S F), (merge_props (map tmember ms), merge_req [] (map tmember ms)).
     split; [simpl; rewrite (decl_members_run _ _ _ _ HF); reflexivity|].
     simpl. rewrite Hp, Hr, fvals_merge, req_merge. auto.
@@ -778,7 +787,7 @@ Section StepProofs.
   Lemma finish_named : forall n nd x s r s',
     alookup n S = Some nd ->
     finish S (Some n) x s = (r, s') -> events s' = [] -> Inv s ->
-    i_name x = Some n -> clean_ir x -> member_ok nd x -> kind_ok nd x -> (i_id x < nid s)%N ->
+    i_name x = Some n -> clean_ir x -> member_ok (Some n) nd x -> kind_ok nd x -> (i_id x < nid s)%N ->
     Inv s' /\ r = x /\ alookup n (parsed s') = Some x.
   Proof.
     intros n nd x s r s' Hl H He HI Hn Hc Hmem Hkind Hid.
@@ -863,7 +872,7 @@ Section StepProofs.
         destruct (props_ok S rec Hrec Hm _ _ _ _ _ _ Hc Hk E He Ho HI) as (I1 & F).
         split; [apply Inv_bump, I1|]. simpl. split; [reflexivity|].
         exists 1%nat, (merge_into [] (map (fun kv => (fst kv, ty_of (snd kv))) ps), req).
-        simpl. auto.
+        simpl. rewrite (core_props_ty None ps Hc). auto.
       - (* Arr *)
         unfold core_anon in Hc. simpl in Hc. rewrite !orb_false_r in Hc.
         destruct (parse_items rec None nd s) as [it s1] eqn:E1.
@@ -897,7 +906,7 @@ Section StepProofs.
       intros n nd s r s' H He Ho HI Hl.
       destruct (spec_facts S HS _ _ Hl) as (Hc & Hcls & Hne & Hk).
       assert (G : forall x t t', finish S (Some n) x t = (r, t') -> events t' = [] -> Inv t ->
-                  i_name x = Some n -> clean_ir x -> member_ok nd x -> kind_ok nd x -> (i_id x < nid t)%N ->
+                  i_name x = Some n -> clean_ir x -> member_ok (Some n) nd x -> kind_ok nd x -> (i_id x < nid t)%N ->
                   Inv t' /\ good n r /\ alookup n (parsed t') = Some r).
       { intros x t t' Hf Hev Hi Hn Hcl Hmem Hkind Hid.
         destruct (finish_named _ _ _ _ _ _ Hl Hf Hev Hi Hn Hcl Hmem Hkind Hid) as (A & -> & C).
@@ -909,7 +918,8 @@ Section StepProofs.
         rewrite H in L. simpl in L. destruct L as (L1 & L2 & _). simpl in L1, L2.
         destruct (props_ok S rec Hrec Hm _ _ _ _ _ _ Hc Hk E (L1 He) (L2 Ho) HI) as (I1 & F).
         eapply G; [exact H | exact He | apply Inv_bump, I1 | reflexivity | apply clean_mk; discriminate | | reflexivity | simpl; lia].
-        exists 1%nat, (merge_into [] (map (fun kv => (fst kv, ty_of (snd kv))) ps), req). simpl. auto.
+        exists 1%nat, (merge_into [] (map (fun kv => (fst kv, ty_of (snd kv))) ps), req).
+        simpl. rewrite (core_props_ty (Some n) ps Hc). auto.
       - (* Arr *)
         simpl in Hc.
         destruct (parse_items rec (Some n) nd s) as [it s1] eqn:E1.
@@ -1906,13 +1916,13 @@ Proof.
 Qed.
 
 Lemma decl_node_ext : forall (S S' : spec), (forall n, alookup n S = alookup n S') ->
-  forall f nd, decl_node f S nd = decl_node f S' nd.
+  forall f pn nd, decl_node f S pn nd = decl_node f S' pn nd.
 Proof.
-  intros S S' H. induction f as [|f IH]; intros nd; [reflexivity|].
+  intros S S' H. induction f as [|f IH]; intros pn nd; [reflexivity|].
   destruct nd; try reflexivity.
   - simpl. rewrite H. destruct (alookup n S'); [apply IH | reflexivity].
-  - change (decl_members (decl_node f S) l [] = decl_members (decl_node f S') l []).
-    apply decl_members_ext. exact IH.
+  - change (decl_members (decl_node f S None) l [] = decl_members (decl_node f S' None) l []).
+    apply decl_members_ext. intros x. apply IH.
 Qed.
 
 Lemma declared_f_ext : forall (S S' : spec), (forall n, alookup n S = alookup n S') ->
